@@ -63,9 +63,96 @@ let cmd_proverwhy prog lim =
       | Inr (Ok (((res, cyc), ls), s')) -> fin s' (Inr (((res, cyc), ls), s'.ps_q)) in
   go 0 prover_init
 
+(* verified symbolic rule checker (Model/SymRule.v, Proofs/SymRuleSound.v) *)
+let rec nat_of_int (i : int) : nat = if i <= 0 then O else S (nat_of_int (i - 1))
+let field_of_bounds ((l, r) : bounds) = field_of_nlist l ^ "/" ^ field_of_nlist r
+let bounds_of_field s : bounds = counts_of_field s
+let why_of_code c = match int_of_n c with
+  | 1 | 3 -> "negcount" | 2 -> "two-unknowns" | 10 -> "cycles" | 11 -> "halts" | 12 -> "spinout"
+  | 20 -> "badrule" | 21 -> "restarts" | 22 -> "depth" | k -> "code" ^ string_of_int k
+let mask_of_mode mode t0 = match mode with
+  | "all" -> mask_all | "sig" -> mask_sig t0 | _ -> failwith "bad mode"
+let field_of_mask ((l, r) : smask) =
+  String.concat "" (List.map b2s l) ^ "/" ^ String.concat "" (List.map b2s r)
+(* answers  cert:<cycles>:<req>:<all|sig|above>:<detail>   or   nocert:<why>:<req reached>
+   all / sig : the verified case split [cover] succeeds from the guard of rules.rs (mode all: every
+               block an unknown >= 1; mode sig: blocks of count 1 pinned, the others >= 2): detail =
+               number of certificates used
+   above     : certified for counts >= req only; detail = first boundary case that fails
+               (tape with the pinned counts; mask, 0 = pinned; why; requirement reached) *)
+let cmd_symrule prog q before rule cycles mode restarts =
+  let t0 = tape_of_field before in
+  let r = rule_of_field rule in
+  let comp = comp_of_text prog and q = n_of_string q in
+  let m = mask_of_mode mode t0 in
+  let cy = nat_of_int (int_of_string cycles) and rs = nat_of_int (int_of_string restarts) in
+  match check_rule comp q t0 r m cy rs with
+  | CCert (n, req) ->
+    let g = guard_bounds (n_of_int (if mode = "all" then 1 else 2)) m r t0 in
+    let tail = (match cover_diag comp q r cy rs g (nat_of_int 8) m t0 with
+        | CvOk k ->
+          (* the verified boolean agrees by construction; it is what the theorem is about *)
+          if (if mode = "all" then cover comp q r cy rs g (nat_of_int 8) m t0
+              else cover_sig comp q r cy rs (nat_of_int 8) t0)
+          then mode ^ ":" ^ string_of_n k else "above:diag-mismatch"
+        | CvFail (m', t', w, req') ->
+          "above:" ^ field_of_tape t' ^ ";" ^ field_of_mask m' ^ ";" ^ why_of_code w ^ ";" ^ field_of_bounds req') in
+    "cert:" ^ string_of_n n ^ ":" ^ field_of_bounds req ^ ":" ^ tail
+  | CNo (w, req) -> "nocert:" ^ why_of_code w ^ ":" ^ field_of_bounds req
+(* symcert|prog|state|tape|rule[|cycles[|mode[|restarts]]]   (mode: sig (default) | all)
+     -> cert|<cycles per application>|<free_l>/<free_r>|<T_l>/<T_r>|<complete|above>
+        free: 1 = the block is an unknown, 0 = pinned to its count in <tape>
+        T   : threshold of every block (0 for a pinned block)
+        THEOREM C03_check_rule_sound: one application of the rule in <state> is a run of >= 1
+        real steps on EVERY canonical tape t with the colours of <tape>, whose pinned blocks have
+        the counts of <tape> and whose other blocks ALL have count >= T (not only the decreasing ones)
+        complete: moreover the verified case split closes the gap between the guard of rules.rs
+                  and T (C03_cover_rule_valid for mode all; C03_cover_sig_apply_sound for mode sig)
+     -> nocert|<reason>|<thresholds reached> *)
+let cmd_symcert prog q before rule cycles mode restarts =
+  let t0 = tape_of_field before in
+  let r = rule_of_field rule in
+  let comp = comp_of_text prog and q = n_of_string q in
+  let m = mask_of_mode mode t0 in
+  let cy = nat_of_int (int_of_string cycles) and rs = nat_of_int (int_of_string restarts) in
+  let free sd s = String.concat "" (List.mapi (fun i _ -> b2s (mask_get m (sd, nat_of_int i))) s) in
+  match check_rule comp q t0 r m cy rs with
+  | CCert (n, req) ->
+    let complete =
+      if mode = "all" then cover comp q r cy rs (guard_bounds (n_of_int 1) m r t0) (nat_of_int 8) m t0
+      else cover_sig comp q r cy rs (nat_of_int 8) t0 in
+    String.concat "|" [ "cert"; string_of_n n; free false t0.lspan ^ "/" ^ free true t0.rspan;
+                        field_of_bounds req; (if complete then "complete" else "above") ]
+  | CNo (w, req) -> "nocert|" ^ why_of_code w ^ "|" ^ field_of_bounds req
+(* symsplit|mode|<T_l>/<T_r>|tape of the certificate|tape before|rule|times
+     -> <K>|<tape before + K.rule>     K = number of leading single applications that start
+        above the threshold (theorem C03_apply_split_above: real run up to that tape) *)
+let cmd_symsplit mode req before0 before rule times =
+  let t0 = tape_of_field before0 and t = tape_of_field before in
+  let r = rule_of_field rule in
+  let k = max_covered (mask_of_mode mode t0) (bounds_of_field req) t0 t r (n_of_string times) in
+  string_of_n k ^ "|" ^ field_of_tape (shift_tape_N r k t)
+let cmd_symcover mode req before0 before rule times =
+  let t0 = tape_of_field before0 in
+  b2s (app_covered (mask_of_mode mode t0) (bounds_of_field req) t0 (tape_of_field before)
+         (rule_of_field rule) (n_of_string times))
+
 let dispatch (fields : string list) : string option =
   match fields with
   | ["prover"; prog; lim] -> Some (cmd_prover false prog lim)
   | ["provertrace"; prog; lim] -> Some (cmd_prover true prog lim)
   | ["proverwhy"; prog; lim] -> Some (cmd_proverwhy prog lim)
+  | ["symrule"; prog; q; before; rule; cycles] -> Some (cmd_symrule prog q before rule cycles "all" "64")
+  | ["symrule"; prog; q; before; rule; cycles; mode] -> Some (cmd_symrule prog q before rule cycles mode "64")
+  | ["symrule"; prog; q; before; rule; cycles; mode; restarts] ->
+    Some (cmd_symrule prog q before rule cycles mode restarts)
+  | ["symcert"; prog; q; before; rule] -> Some (cmd_symcert prog q before rule "2000" "sig" "64")
+  | ["symcert"; prog; q; before; rule; cycles] -> Some (cmd_symcert prog q before rule cycles "sig" "64")
+  | ["symcert"; prog; q; before; rule; cycles; mode] -> Some (cmd_symcert prog q before rule cycles mode "64")
+  | ["symcert"; prog; q; before; rule; cycles; mode; restarts] ->
+    Some (cmd_symcert prog q before rule cycles mode restarts)
+  | ["symsplit"; mode; req; before0; before; rule; times] ->
+    Some (cmd_symsplit mode req before0 before rule times)
+  | ["symcover"; mode; req; before0; before; rule; times] ->
+    Some (cmd_symcover mode req before0 before rule times)
   | _ -> None
